@@ -158,6 +158,7 @@ def check_new_child(model: Model, report: Report, rule: str) -> None:
 
 def check(model: Model, report: Report) -> None:
     report.rule("R01.1", "JSONPathQuery.finditer folds self.segments in order starting from one root node (value, (), value)")
+    report.rule("R01.6", "compile(query) = JSONPathQuery(env=self, segments=tuple(self.parser.parse(TokenStream(tokenize(query))))) on every path, whatever state earlier calls left on the environment or its parser")
     report.rule("R01.2", "child segment: for each input node, for each selector in order: yield from selector.resolve(node)")
     report.rule("R01.3", "descendant segment: input node > visited node > selector nesting; visitor chosen by the mode flag and started with default depth")
     report.rule("R01.4", "deterministic visitor: node first (pre-order), children in document order, recursion iff child is an array/object, child node = new_child(child, key)")
@@ -171,6 +172,9 @@ def check(model: Model, report: Report) -> None:
     ]
     report.not_decided += ["parser side beyond the lexical rules of C03/C04 and the query/token shapes of R01.8", "arithmetic of index/slice (C07)"]
     check_finditer(model, report, "R01.1")
+    from . import _pipeline
+
+    _pipeline.check_compile(model, report, "R01.6")
     _segrules.check_child_segment(model, report, "R01.2")
     _segrules.check_descendant_nesting(model, report, "R01.3")
     _segrules.check_visit(model, report, "R01.4")
@@ -182,6 +186,24 @@ def check(model: Model, report: Report) -> None:
     from . import _shapes
 
     _shapes.check_query_trees(model, report, "R01.8")
+    # the name a quoted name selector carries is the decoded literal: decoding problems that change the
+    # decoded value (not refusals, which are C03, nor over-acceptance, which is C04/C09) select other members
+    from . import _strings
+
+    try:
+        dm = _strings.extract_decoder(model)
+    except Unsupported as err:
+        report.undecided("R01.8", "parse.Parser._decode_string_literal", f"decoder tables: {err}")
+        dm = None
+    if dm is not None:
+        n_val = 0
+        for _part, k, msg, dfn in dm.problems:
+            if any(x in k for x in ("rejected", "raises", "non-hex", "unbounded", "never-accepts")):
+                continue
+            n_val += 1
+            report.fail("R01.8", dfn.qualname, f"decoded-name:{k}", f"a quoted name selector does not select the member the literal names: {msg}", file=dfn.file, line=dfn.line)
+        if not n_val:
+            report.ok("R01.8", "parse.Parser._decode_string_literal", "decoder tables map every escape form to the code point it denotes (shared with C09)")
     # R01.10 the deterministic mode is the default (class attribute) and the default environment uses it
     import ast as _ast
 
